@@ -445,6 +445,10 @@ def _rt2_slices(tier):
     return sl
 
 
+def _hi2(x):
+    return x["n"] == 2 and x["kind"] != "value" and not x.get("low")
+
+
 def _rt3_slices():
     sl = []
     for skel, slot, kind in (("leaf", 1, "value"),):
@@ -523,7 +527,7 @@ def obligations(tier):
                     {"skel": "block", "slot": 0, "kind": "bname", "n": 1, "ni": 1, "nsi": 1, "rooted": 0, "cls": "high"},
                     {"skel": "empties", "slot": 2, "kind": "bname", "n": 0, "ni": 1, "nsi": 1}],
             desc="reachability twin of rt1"),
-        Obl("rt2", MOD, "h_rt", slices=_rt2_slices(tier), budget_s=big, per_path_s=90,
+        Obl("rt2", MOD, "h_rt", slices=[x for x in _rt2_slices(tier) if not _hi2(x)], budget_s=big, per_path_s=90,
             desc="same, len 2 (values: every code point; names: ASCII in quick, every code point on leaf/empty in thorough)",
             bound="len(s) == 2"),
         Obl("deliv", MOD, "h_rt", slices=_deliv_slices(tier), budget_s=big, per_path_s=90,
@@ -543,6 +547,9 @@ def obligations(tier):
             desc="two slots symbolic at once (1 character each; names ASCII, values every code point)", bound="len == 1 each"),
     ]
     if not q:
+        # measured: the first-character class "high" slice needs ~2100 s on a loaded machine (two table-driven casefolds per path)
+        obls.append(Obl("rt2.hi", MOD, "h_rt", slices=[x for x in _rt2_slices(tier) if _hi2(x)], budget_s=6400, per_path_s=120,
+                        desc="leaf name of length 2 over every code point, sliced by first-character class", bound="len(s) == 2"))
         obls.append(Obl("rt3", MOD, "h_rt", slices=_rt3_slices(), budget_s=3000, per_path_s=90,
                         desc="len 3: values over every code point (leaf, block), names over ASCII (leaf, empty)", bound="len(s) == 3"))
     return obls
